@@ -192,3 +192,48 @@ Fixpoint x3d_parse (fuel next cur : nat) (l : line) : option (list nat) :=   (* 
     | _ => None
     end
   end.
+
+(* ---------- STL (ASCII): "solid NAME", then per triangle
+     facet normal nx ny nz / outer loop / vertex x y z (x3) / endloop / endfacet,  then "endsolid NAME".
+   Corners are written as coordinates: the lexer maps a coordinate triple that is exactly vertex i to F (3i), F (3i+1), F (3i+2) and every
+   other number (the normals) to the keyword kNUM.  The writer emits, face by face, the fan triangles (f0, f_k, f_k+1). ---------- *)
+Definition kFACET := 25. Definition kNORMAL := 26. Definition kNUM := 27. Definition kOUTER := 28. Definition kLOOP := 29.
+Definition kENDLOOP := 30. Definition kENDFACET := 31. Definition kSOLID := 32. Definition kENDSOLID := 33.
+
+Definition tri3 := (nat * nat * nat)%type.
+Fixpoint fan_from (a b : nat) (l : list nat) : list tri3 :=
+  match l with [] => [] | c :: r => (a, b, c) :: fan_from a c r end.
+Definition fan (f : list nat) : list tri3 := match f with a :: b :: l => fan_from a b l | _ => [] end.
+
+Definition stl_vertex (i : nat) : line := K kVERTEX :: vline i.
+Definition stl_facet (t : tri3) : list line :=
+  let '(a, b, c) := t in
+  [[K kFACET; K kNORMAL; K kNUM; K kNUM; K kNUM]; [K kOUTER; K kLOOP]; stl_vertex a; stl_vertex b; stl_vertex c; [K kENDLOOP]; [K kENDFACET]].
+Definition write_stl (m : mesh) : list line :=
+  [K kSOLID; K 0] :: flat_map stl_facet (flat_map fan (faces m)) ++ [[K kENDSOLID; K 0]].
+
+Definition parse_stl_vertex (nvert : nat) (l : line) : option nat :=
+  match l with
+  | [K k; F x; F y; F z] =>
+    let i := Nat.div x 3 in
+    if Nat.eqb k kVERTEX && line_eqb [F x; F y; F z] (vline i) && Nat.ltb i nvert then Some i else None
+  | _ => None
+  end.
+Fixpoint parse_stl_facets (nvert : nat) (ls : list line) : option (list tri3) :=
+  match ls with
+  | l1 :: l2 :: v1 :: v2 :: v3 :: l6 :: l7 :: rest =>
+    if line_eqb l1 [K kFACET; K kNORMAL; K kNUM; K kNUM; K kNUM] && line_eqb l2 [K kOUTER; K kLOOP]
+       && line_eqb l6 [K kENDLOOP] && line_eqb l7 [K kENDFACET] then
+      match parse_stl_vertex nvert v1, parse_stl_vertex nvert v2, parse_stl_vertex nvert v3, parse_stl_facets nvert rest with
+      | Some a, Some b, Some c, Some ts => Some ((a, b, c) :: ts)
+      | _, _, _, _ => None
+      end
+    else None
+  | [[K e; K _]] => if Nat.eqb e kENDSOLID then Some [] else None
+  | _ => None
+  end.
+Definition parse_stl (nvert : nat) (ls : list line) : option (list tri3) :=
+  match ls with
+  | [K s; K _] :: rest => if Nat.eqb s kSOLID then parse_stl_facets nvert rest else None
+  | _ => None
+  end.
